@@ -1,6 +1,7 @@
 import Logrange.Proofs.LqlSites
 import Logrange.Generated.C13Sites
 import Logrange.Props.C13
+import Logrange.Model.IngestLimit
 /-!
 # C13 — the Go-level panic sites of pkg/lql are guarded (property theorems)
 
@@ -143,5 +144,61 @@ theorem cex_pipe_copy_outgrows_record_limit :
     (Wire.Event.marshal ⟨1, [109], [1, 97, 1, 98]⟩).length = 16 ∧
     (Wire.Event.marshal ⟨1, [109], WireFields.concat [1, 97, 1, 98] [1, 112, 1, 113]⟩).length = 20 := by
   decide
+
+/-! ## the ingest limit and the life of the request buffer
+
+"never stores an event whose fields a later read cannot decode" has a size clause: a record above the chunk reader's buffer makes the
+partition unreadable from that record on. "never reads outside the request buffer" has a lifetime clause: a string decoded without
+copying must not be read after the buffer was given back to the pool. Both are code shapes of api/rpc, read by
+`tools/extract/c13_ingest.go`, and both are exercised end to end (e2e `recsize` batch: record sizes limit−2 … limit+6 with a small
+configured MaxRecordSize and read-back; section `lifetime`: a held cursor's ReqId re-used with another query of equal length). -/
+
+open Logrange.IngestLimit
+
+/-- the facts: the limit is the configured MaxRecordSize as it is, and the validation refuses what is above it -/
+theorem ingest_limit_in_place :
+    Generated.C13.ingestLimitHasAddend = false ∧ Generated.C13.ingestSizeTestRejectsAbove = true := by decide
+
+/-- **Every acknowledged record fits the reader's buffer**: with the regenerated shapes, an event the validation accepts under a
+configured `MaxRecordSize = mrs > 0` needs at most `mrs` bytes — whatever the addend would be. -/
+theorem acked_record_fits_reader (addend mrs sz : Nat) (hm : 0 < mrs)
+    (h : accepts Generated.C13.ingestSizeTestRejectsAbove
+          (ingestLimit Generated.C13.ingestLimitHasAddend addend mrs) sz = true) :
+    readable mrs sz = true := by
+  have hf := ingest_limit_in_place
+  rw [hf.1, hf.2] at h
+  simp only [ingestLimit, accepts, readable] at *
+  simp at h
+  simp
+  rcases h with h | h
+  · omega
+  · exact h
+
+example : accepts true (ingestLimit false 4 4096) 4096 = true ∧ accepts true (ingestLimit false 4 4096) 4097 = false := by decide
+
+/-- why the shapes matter (kernel-evaluated): with an addend of 4 a record of limit+1 … limit+4 bytes is acknowledged and not
+readable; without the test everything is -/
+theorem cex_ingest_limit_addend :
+    accepts true (ingestLimit true 4 4096) 4100 = true ∧ readable 4096 4100 = false ∧
+    accepts false (ingestLimit false 0 4096) 9000 = true := by decide
+
+/-- **No decoded string outlives the buffer it points into** (request side): no server handler of api/rpc both decodes its body
+without copying and gives the body back to the pool; and the fact is about something — the query handler does decode without copying. -/
+theorem request_strings_do_not_outlive_buffer :
+    Generated.C13.rpcHandlers.all (fun h => !(h.2.1 && h.2.2)) = true ∧
+    Generated.C13.rpcHandlers.any (fun h => h.2.1) = true := by decide
+
+/-- hence what a holder of a decoded request string reads later is the text that was decoded, for every handler and every next request -/
+theorem held_request_text_is_stable (decoded next : Bytes) :
+    ∀ h ∈ Generated.C13.rpcHandlers, heldText h.2.1 h.2.2 decoded next = decoded := by
+  intro h hh
+  have hall := request_strings_do_not_outlive_buffer.1
+  rw [List.all_eq_true] at hall
+  have := hall h hh
+  unfold heldText
+  cases hw : h.2.1 <;> cases hc : h.2.2 <;> simp_all
+
+/-- … and with both (the handler collects the body it decoded weakly) the holder reads the NEXT request's bytes -/
+theorem cex_collected_weak_string (decoded next : Bytes) : heldText true true decoded next = next := rfl
 
 end Logrange.Props.C13Sites
